@@ -12,6 +12,7 @@ import GraphiqModel.Proofs.StateToGraphNegativity
 import GraphiqModel.Proofs.StateToGraphHilbert
 import GraphiqModel.Proofs.StateToGraphGaugeIndep
 import GraphiqModel.Proofs.StateToGraphTableau
+import GraphiqModel.Proofs.StateToGraphPairMatrix
 import GraphiqModel.Proofs.GraphStateGroup
 namespace Graphiq.C08
 open Graphiq Graphiq.PRow Graphiq.Tab Graphiq.STab
@@ -485,17 +486,23 @@ theorem state_to_graph_correct_hilbert (t : STab) (hn : 0 < t.n) (hstate : IsSta
 /-! ### density matrix → graph: what is exact about the negativity-based edge detection
 
   `_density_to_graph_pure` decides the pair `i < j` by projecting every other qubit onto `|0⟩` (`project_and_remove`), tracing it out and
-  comparing the negativity of the two-qubit state with 0.1.  The full statement `density_to_graph(|G⟩⟨G|) = G` is about dense complex
-  matrices and float eigenvalues and is NOT a theorem here (`density_to_graph_statement` is only described).  Proved: the two exact
-  halves below; cited (textbook): for a stabilizer state `ρ = 2⁻ⁿ Σ_{g ∈ S} g`, `⟨0_M| ρ |0_M⟩ = 2⁻ⁿ Σ g|_{i,j}` over the elements of `S`
-  without X or Y on `M` (`⟨0|X|0⟩ = ⟨0|Y|0⟩ = 0`) — `PairGroup` is that set — and the uniqueness of the Jordan decomposition
-  (negativity = trace of the negative part).  The harness compares `project_and_remove` and `negativity` of every pair of every graph on
+  comparing the negativity of the two-qubit state with 0.1.  Proved below, for every n and every simple graph:
+  * group level (`density_to_graph_pair_state_partial`) and Hilbert space (`density_to_graph_project_and_remove`): the state handed to
+    `negativity` is the graph state of the induced pair; `project_and_remove` is modelled as a map on `2ⁿ × 2ⁿ` complex matrices
+    (`projOff` = `⊗_{k∉{i,j}} |0⟩⟨0|`, division by the trace — which is `4/2ⁿ ≠ 0`, so the `1 − P₀` branch of the code is never taken —,
+    `ptraceOff` = sum over the basis states of the traced qubits);
+  * the two possible states as exact 4×4 rational matrices and their negativities 0 and 1/2 (`density_to_graph_pair_negativity`,
+    `density_to_graph_edge_rule_partial`).
+  NOT proved (so the full statement `density_to_graph(|G⟩⟨G|) = G` is not a theorem): that the numpy code of `project_and_remove` /
+  `partial_trace` / `bipartite_partial_transpose` computes these maps (read off the source, compared numerically per input), the
+  uniqueness of the Jordan decomposition (negativity `Σ(|λ| − λ)/2` = trace of the negative part — textbook), the float eigenvalues, the
+  purity test and the closing `np.allclose`.  The harness compares `project_and_remove` and `negativity` of every pair of every graph on
   ≤ 5 vertices with the two states below (1e-9). -/
 
 /-- **which two-qubit state the code looks at** (every n, every simple graph, every pair `i ≠ j`; group level): the restrictions to
     `(i, j)` of the elements of the group of `|G⟩` that carry no X or Y on the other qubits form exactly the signed group of the two-vertex
     graph state with an edge iff `adj i j` — `⟨X⊗Z, Z⊗X⟩` (edge) or `⟨X⊗I, I⊗X⟩` (no edge).
-    Missing for `density_to_graph(|G⟩⟨G|) = G`: the Hilbert-space identity quoted above and the float eigenvalue computation. -/
+    (The Hilbert-space counterpart is `density_to_graph_project_and_remove`.) -/
 theorem density_to_graph_pair_state_partial (n : Nat) (adj : Adj) (hsym : ∀ i j, i < n → j < n → adj i j = adj j i)
     (hirr : ∀ i, i < n → adj i i = false) (i j : Nat) (hi : i < n) (hj : j < n) (hij : i ≠ j) (P : PRow) :
     PairGroup (graphSTab n adj) i j P ↔ (graphSTab 2 (pairAdj (adj i j))).Spn P :=
@@ -524,8 +531,43 @@ theorem density_to_graph_pair_negativity :
     ((0 : ℚ) ≤ 1/10 ∧ (1/10 : ℚ) < 1/2) :=
   ⟨⟨Neg.rhoPlus_group_sum, Neg.rhoEdge_group_sum⟩, Neg.negativity_plus, Neg.negativity_edge, Neg.threshold_separates⟩
 
-/- Not theorems of this development (kept visible): (1) the density-matrix side beyond the two exact halves above (dense complex
-   matrices, purity test, float eigenvalues, the closing `np.allclose` validation) — compared numerically per input; (2) the
+/-- **`project_and_remove(|G⟩⟨G|, everything but i, j)` is the graph state of the induced pair — on Hilbert space** (every n, every
+    simple graph, `i < j < n`; `|G⟩⟨G| = graphStateMat n adj`, the matrix `graph_to_density` builds): the projected matrix has trace
+    `4/2ⁿ` (never 0) and the normalised partial trace is the density matrix of the two-vertex graph with an edge iff `adj i j` -/
+theorem density_to_graph_project_and_remove (n : Nat) (adj : Adj) (hsym : ∀ i j, i < n → j < n → adj i j = adj j i)
+    (hirr : ∀ i, i < n → adj i i = false) (i j : Nat) (hij : i < j) (hj : j < n) :
+    Matrix.trace (projOff n i j * graphStateMat n adj * projOff n i j) = (1 / 2 : ℂ) ^ n * 4 ∧
+    projectAndRemove n i j (graphStateMat n adj) = Hilbert.rho 2 (graphSTab 2 (pairAdj (adj i j))) := by
+  rw [← rho_graphSTab n adj hsym hirr]
+  exact projectAndRemove_graph n adj hsym hirr i j hij hj
+
+/-- **the edge rule, assembled** (every n, every simple graph, `i < j < n`): entry by entry the matrix handed to `negativity` is the
+    exact rational matrix `M = rhoEdge` (if `adj i j`) resp. `rhoPlus` (index `2·b₀ + b₁`), and the partial transpose of `M` has a Jordan
+    decomposition whose negative part has trace `1/2` resp. `0` — above resp. below the threshold 0.1, i.e. the code's test
+    `negativity > threshold` holds exactly for the edges of `G`.
+    Missing for `density_to_graph(|G⟩⟨G|) = G`: see the section comment (numpy code ↔ these maps, Jordan uniqueness, float eigenvalues). -/
+theorem density_to_graph_edge_rule_partial (n : Nat) (adj : Adj) (hsym : ∀ i j, i < n → j < n → adj i j = adj j i)
+    (hirr : ∀ i, i < n → adj i i = false) (i j : Nat) (hij : i < j) (hj : j < n) :
+    ∃ (M P N : Neg.M4),
+      (∀ a b, projectAndRemove n i j (graphStateMat n adj) a b = ((M (idx2 a) (idx2 b) : ℚ) : ℂ)) ∧
+      Neg.Jordan (Neg.ptA M) P N ∧
+      Matrix.trace N = (if adj i j then 1/2 else 0) ∧
+      ((1/10 : ℚ) < Matrix.trace N ↔ adj i j = true) := by
+  have h := (density_to_graph_project_and_remove n adj hsym hirr i j hij hj).2
+  cases he : adj i j
+  · refine ⟨Neg.rhoPlus, Neg.rhoPlus, 0, fun a b => ?_, Neg.negativity_plus.1, by simp, by simp⟩
+    rw [h, he]; exact rho2_entries false a b
+  · refine ⟨Neg.rhoEdge, Neg.posPart, Neg.negPart, fun a b => ?_, Neg.negativity_edge.1, by simp [Neg.negativity_edge.2], ?_⟩
+    · rw [h, he]; exact rho2_entries true a b
+    · rw [Neg.negativity_edge.2]; norm_num
+
+/-- non-vacuity of the two Hilbert-space density theorems: the triangle, pair `(0, 2)` -/
+example : Matrix.trace (projOff 3 0 2 * graphStateMat 3 tri * projOff 3 0 2) = (1 / 2 : ℂ) ^ 3 * 4 :=
+  (density_to_graph_project_and_remove 3 tri tri_symm (by decide) 0 2 (by decide) (by decide)).1
+
+/- Not theorems of this development (kept visible): (1) the density-matrix side beyond the theorems above (that the numpy code of
+   `project_and_remove` / `partial_trace` / `bipartite_partial_transpose` computes the modelled maps, uniqueness of the Jordan
+   decomposition, float eigenvalues, purity test, the closing `np.allclose` validation) — compared numerically per input; (2) the
    correspondence of the model with the Python source — exact comparison (graph, gate list, error class) on every generated input, not a
    proof.  No float step is left in `state_to_graph` since /repo 70adac4 (`_gf2_inverse`); completeness was false before the repairs
    86ab4f1 (D40), 8a43724 (D49) and 70adac4 (D51). -/
